@@ -51,16 +51,21 @@ CheckLog(tree, failAt) == IF failAt \in {CheckOrder(tree)[i] : i \in 1..Len(Chec
 CheckFails(tree, failAt) == \E i \in 1..Len(CheckOrder(tree)) : CheckOrder(tree)[i] = failAt
 \* the schema a checker returns: its node id and the schemas it SEES on its children at that moment
 \* ("" for a child without a recorded schema); bottom-up order makes these the children's final schemas
-RECURSIVE SchemaOf(_, _, _)
-SchemaOf(tree, failAt, n) ==
+RECURSIVE SchemaOfT(_, _, _, _)
+SchemaOfT(tree, failAt, n, tag) ==
   LET nd == tree[n]
       RECURSIVE KS(_)
-      KS(i) == IF i > Len(nd.kids) THEN "" ELSE SchemaOf(tree, failAt, nd.kids[i]) \o (IF i < Len(nd.kids) THEN "," ELSE "") \o KS(i + 1)
-  IN IF HasChecker(nd) /\ n # failAt THEN "s" \o ToString(n) \o "(" \o KS(1) \o ")"
+      KS(i) == IF i > Len(nd.kids) THEN "" ELSE SchemaOfT(tree, failAt, nd.kids[i], tag) \o (IF i < Len(nd.kids) THEN "," ELSE "") \o KS(i + 1)
+  IN IF HasChecker(nd) /\ n # failAt THEN tag \o ToString(n) \o "(" \o KS(1) \o ")"
      ELSE IF nd.k = "term" THEN "t" ELSE ""
+SchemaOf(tree, failAt, n) == SchemaOfT(tree, failAt, n, "s")
 \* schema recorded on node n after the pass: only for checkers that ran successfully
 Ran(tree, failAt, n) == \E i \in 1..Len(CheckLog(tree, failAt)) : CheckLog(tree, failAt)[i] = n
 FinalSchema(tree, failAt, n) == IF HasChecker(tree[n]) /\ Ran(tree, failAt, n) /\ n # failAt THEN SchemaOf(tree, failAt, n) ELSE (IF tree[n].k = "term" THEN "t" ELSE "")
+\* a SECOND pass over the same node objects (checkers that now answer with the tag "r", none fails): every checker runs
+\* again, whatever the first pass left on the nodes, and every node carries the schema of the second pass afterwards
+SecondCheck(tree) == [log |-> CheckOrder(tree), failed |-> FALSE,
+                      schemas |-> [n \in 1..Len(tree) |-> SchemaOfT(tree, 0, n, "r")]]
 
 \* ---- Transform -------------------------------------------------------------------------
 \* log of TransformNode calls (pre-order over the nodes reached); a node with its own transformer is replaced by
